@@ -25,7 +25,8 @@ NAMES = ["nordicsemi.com", "nRF54H20_sample_root", "", "a", "é中\U0001f600", "
          "{7d9f1e2a-4b3c-4d5e-8f60-a1b2c3d4e5f6}", "6ba7b810-9dad-11d1-80b4-00c04fd430c8", "0x10", " padded ", "NordicSemi.com", "0", "None", "a\\b"]
 
 
-SPECIAL_PAIRS = [(("acme.example", "9160"), ("acme.example", "0x54")), (("y", "y"), ("n", "0")), (("0x1F", "42"), ("42", "0x1F")),
+SPECIAL_PAIRS = [(("acme\u2028.example", "cls"), ("acme.example", "c\u0085ls")), (("a\x0bb.example", "c\x0cd"), ("x\x1cy", "z\x1e")), (("acme.example", "cl\u2029s"), ("acme.example", "cl\x1ds")),
+                 (("acme.example", "9160"), ("acme.example", "0x54")), (("y", "y"), ("n", "0")), (("0x1F", "42"), ("42", "0x1F")),
                  (("example.com/lighting", "bulb"), ("example.com", "lighting/bulb")), (("a b", "c"), ("a", "b c")), (("a", "b,c"), ("a,b", "c")),
                  (("a:b", "c"), ("a", "b:c")), (("a", "b|c"), ("a|b", "c")), (("ab", "c"), ("a", "bc")), (("x.example", "y"), ("x.example", "Y")),
                  (("acme.example ", "cls"), ("acme.example", "cls")), (("ACME Corp", " gateway"), ("ACME Corp", "gateway\t")), (("acme.example", "cls "), ("acme.example", " cls")),
